@@ -72,3 +72,4 @@ claim("C23", "K13 K15", "Unbounded proof of isValidGlobPattern safety/terminatio
 claim("C24", "K15", "Proof on the per-suppression predicates of getUnmatched{Local,Global,Inline}Suppressions (loop bodies as regions): a matched suppression is never reported, inline/non-inline split, local/global disjoint; with isMatch's contract: once isMatch returned true the suppression is reported by none of them. Only this half of the property is claimed.", _NOTE)
 claim("C30", "K18", "Unbounded proof (loop contract) that the <valid>-expression gate isCompliantValidationExpression is memory-safe on every NUL-terminated string, terminates and rejects empty strings and a leading '.'; its language is bracketed by the documented grammar for short strings (bounded, labelled).", _NOTE)
 claim("C33", "K24", "Unbounded proof of the interpreter leaves chrInFirstWord / firstWordEquals (loop contracts); bounded check per pattern word that the matcher generated by the real tools/matchcompiler.py equals the extracted Token::Match on symbolic token lists of 0..2 tokens (labelled bounded; seeded word sample in the quick tier, every word of lib/*.cpp in the thorough tier).", _NOTE)
+claim("C03", "K21 K04 K02", "Proof (loop-free regions, complete in all operands) that the verdict blocks of CheckCondition::comparison and checkCompareValueOutOfTypeRange only report a value the comparison has for every value of the non-constant operand under C's conversion rules; one recorded finding (signed variable against unsigned constant) is split off and reported as KNOWN-FINDING.", _NOTE)
